@@ -24,6 +24,7 @@ Matches(e) ==
    /\ \A a \in 1..NA : /\ m.bal[a] = s[<<"bal", a>>] /\ m.nonce[a] = s[<<"nonce", a>>] /\ m.s1[a] = s[<<"s1", a>>]
                         /\ m.s2[a] = s[<<"s2", a>>] /\ m.code[a] = s[<<"code", a>>] /\ m.dbal[a] = s[<<"dbal", a>>]
                         /\ SetOf(m.dto[a]) = s[<<"dto", a>>]
+                        /\ m.ex[a] = s[<<"ex", a>>] /\ m.sui[a] = s[<<"sui", a>>]
    /\ \A v \in 1..NV : LET r == s[<<"val", v>>] IN
                            /\ m.val[v][1] = r.tok /\ m.val[v][2] = r.on /\ m.val[v][3] = r.ex
                            /\ \A a \in 1..NA : m.val[v][4][a] = r.dl[a]
@@ -42,6 +43,8 @@ TReset == /\ (IsEvent("reset") \/ IsEvent("abort"))
 Act(e) == LET a == e.args IN
    CASE e.ev = "AddBalance" -> AddBalance(a.a, a.d)
      [] e.ev = "SubBalance" -> SubBalance(a.a, a.d)
+     [] e.ev = "Suicide"    -> Suicide(a.a)
+     [] e.ev = "CreateAccount" -> CreateAccount(a.a)
      [] e.ev = "SetNonce"   -> SetNonce(a.a, a.v)
      [] e.ev = "SetCode"    -> SetCode(a.a, a.v)
      [] e.ev = "SetState"   -> SetState(a.a, a.s, a.v)
